@@ -1026,3 +1026,70 @@ def lazy_field_single_writer_rule(chk: Check, rule: str, fields: dict[str, str |
             chk.violation(rule, f, construct,
                           f"`{unparse(a, 70)}` pre-sets the lazily derived field: this instance no longer uses what `{source or "the object's own state"}` describes, while every clone (include / exclude / parametrize) recomputes it - the same loaded schema behaves differently depending on which object is asked",
                           f.loc(a))
+
+
+# ------------------------------------------------------------------------------------------------- presence, not truthiness
+def truth_tests_of(fn_node: ast.AST, name: str) -> list[ast.AST]:
+    """Places where local `name` itself is used as a truth value: `if name:`, `elif name`, `while name`, `x if name else y`,
+    `name and ...`, `... or name` used as a test, `not name`, comprehension `if name`.  `name is None`, `name == x`,
+    `name in y` are comparisons, not truth tests."""
+    out: list[ast.AST] = []
+
+    def is_name(e: ast.AST) -> bool:
+        return isinstance(e, ast.Name) and e.id == name
+
+    def visit_test(e: ast.AST) -> None:
+        if is_name(e):
+            out.append(e)
+        elif isinstance(e, ast.UnaryOp) and isinstance(e.op, ast.Not):
+            visit_test(e.operand)
+        elif isinstance(e, ast.BoolOp):
+            for v in e.values:
+                visit_test(v)
+
+    for n in ast.walk(fn_node):
+        if isinstance(n, (ast.If, ast.While, ast.IfExp)):
+            visit_test(n.test)
+        elif isinstance(n, ast.comprehension):
+            for i in n.ifs:
+                visit_test(i)
+        elif isinstance(n, ast.Assert):
+            visit_test(n.test)
+        elif isinstance(n, ast.BoolOp) and not any(isinstance(p, (ast.If, ast.While, ast.IfExp)) for p in [getattr(n, "_parent", None)]):
+            # `value = name or default` replaces a falsy value as well
+            if isinstance(n.op, ast.Or) and any(is_name(v) for v in n.values[:-1]):
+                out.extend(v for v in n.values[:-1] if is_name(v))
+    seen: set[int] = set()
+    uniq = []
+    for x in out:
+        if id(x) not in seen:
+            seen.add(id(x))
+            uniq.append(x)
+    return uniq
+
+
+def presence_not_truthiness_rule(chk: Check, rule: str, fns: list[FuncInfo], is_value_lookup: Callable[[ast.Call], str | None], doc: str, why: str, floor: int) -> None:
+    """For every local bound to a lookup that can legitimately return a FALSY value (`.get(K)` of a user-supplied value:
+    0, False, '', [], {}): the local is never used as a truth value; presence is tested with `in`, `is None` or a
+    sentinel."""
+    chk.rule(rule, doc, floor=floor)
+    n = 0
+    for fn in fns:
+        if isinstance(fn.node, ast.Lambda):
+            continue
+        for a in walk_body(fn.node):
+            if not (isinstance(a, ast.Assign) and len(a.targets) == 1 and isinstance(a.targets[0], ast.Name) and isinstance(a.value, ast.Call)):
+                continue
+            what = is_value_lookup(a.value)
+            if what is None:
+                continue
+            name = a.targets[0].id
+            n += 1
+            construct = f"{fn.qualname.partition(':')[2]}: `{unparse(a, 60)}` is tested for presence, not truthiness"
+            tests = truth_tests_of(fn.node, name)
+            if tests:
+                chk.violation(rule, fn, construct, f"`{name}` ({what}) is used as a truth value: {why}", fn.loc(tests[0]))
+            else:
+                chk.ok(rule, fn, construct, "", fn.loc(a))
+    if n < floor:
+        chk.undecided(rule, "<discovery>", f"sites={n}", "fewer value lookups than confirmed by hand")
